@@ -12,7 +12,11 @@ theorem setVarByName_fields (s : St) (n v : Bytes) :
     (s.setVarByName n v).streams = s.streams ∧ (s.setVarByName n v).fs = s.fs ∧ (s.setVarByName n v).argv = s.argv ∧
     (s.setVarByName n v).argc = s.argc ∧ (s.setVarByName n v).nr = s.nr := by
   unfold St.setVarByName
-  split <;> simp
+  split
+  · simp
+  · split
+    · simp
+    · split <;> simp
 
 /-- `nextLine`'s operand walk never touches the ghost counters, the output, `$0`, the exit status, the getline streams,
 the file system or ARGV/ARGC; `NR` moves by exactly one when a record is delivered and not at all otherwise -/
